@@ -33,15 +33,21 @@ def make_spec(task):
     tree, scheme, ivar, k = task
     spec = add_scheme_S(flatten(tree, scheme, ivar), send_subset=True)
     spec['preamble'] = 'v = 0'
-    for s in spec['states']:
+    names = [s['name'] for s in spec['states']]
+    for i, s in enumerate(spec['states']):
         for key in ('on_entry', 'on_exit'):
             s[key] += '; v = v + 1'
+        other = names[(i + 1) % len(names)]
         for kind in KINDS:
-            s[kind] = ["C('s/%s:%s%d', v)" % (s['name'], kind, i) for i in range(2)]
+            # the conditions read the configuration in the middle of a step (active()), like real contracts do
+            s[kind] = ["C('s/%s:%s%d', v, active(%r), active(%r))" % (s['name'], kind, j, s['name'], other)
+                       for j in range(2)]
     for t in spec['transitions']:
         t['action'] += '; v = v + 1'
+        if t['tid'] % 2 == 0:
+            t['guard'] += " and (active(%r) or True)" % t['source']
         for kind in KINDS:
-            t[kind] = ["C('t/%d:%s%d', v)" % (t['tid'], kind, i) for i in range(2)]
+            t[kind] = ["C('t/%d:%s%d', v, active(%r))" % (t['tid'], kind, j, t['source']) for j in range(2)]
     return spec
 
 
